@@ -77,7 +77,7 @@ def bpms(r):
 
 def plan(tier, seed):
     K = 4 if tier == "quick" else 5
-    shards = [(r, i, K) for r in RES for i in range(5)]
+    shards = [(r, i, K) for r in RES for i in range(5)] + [("subus", r) for r in (192, 960, 480)]
     return dict(shards=shards, bounds=dict(resolutions=list(RES), segments=K, gaps=list(GAPS), bpm_thousandths={str(r): list(bpms(r)) for r in RES}), budget_s=900 if tier == "thorough" else 300)
 
 
@@ -95,6 +95,8 @@ def build(r, tempo):
 
 
 def run_shard(shard, ctx):
+    if shard[0] == "subus":
+        return _subus(ctx, shard[1])
     r, i0, K = shard
     B = bpms(r)
     ctx.node()
@@ -117,6 +119,27 @@ def run_shard(shard, ctx):
                     ctx.hist["undecided(parse or query raises; owned by C01/C08/C15)"] += 1
                 elif got != "monotone":
                     e1.report(ctx, "monotone", text, src(strict), ["monotone"], got, "resolution %d tempo map %r" % (r, [list(x) for x in tempo]), extra_case=dict(strict=strict))
+
+
+def _subus(ctx, r):
+    """Sub-microsecond ticks: one or two tempo changes after segments of EVERY length 1..48, so that
+    the fractional microsecond part of a completed segment sweeps the whole unit interval."""
+    fast = (10**9, 999999999, 500000000, 3 * 10**10 // r * 4)
+    for n0 in fast:
+        for d in range(1, 49):
+            for n1 in (n0, 120000, 10**9):
+                for d2 in (None, 1, 3, 5):
+                    tempo = [(0, n0), (d, n1)] + ([(d + d2, n0)] if d2 else [])
+                    text = build(r, tempo)
+                    strict = all(n * r <= 3 * 10**10 for _, n in tempo)
+                    got = e1.run_probe(probes[strict], text)
+                    ctx.case((r, tuple(tempo)), sample=lambda: dict(resolution=r, tempo=[list(x) for x in tempo]))
+                    ctx.evaluations += 3 * (tempo[-1][0] + 5)
+                    ctx.hist["sub_microsecond_maps"] += 1
+                    if isinstance(got, list) and got[:1] == ["raises"]:
+                        ctx.hist["undecided(parse or query raises; owned by C01/C08/C15)"] += 1
+                    elif got != "monotone":
+                        e1.report(ctx, "monotone", text, src(strict), ["monotone"], got, "resolution %d tempo map %r (sub-microsecond ticks)" % (r, [list(x) for x in tempo]), extra_case=dict(strict=strict))
 
 
 def replay(case):
